@@ -64,6 +64,13 @@ def ctxOracles (id op : String) (c : Ctx) (x y : Dec) (iarg : Int) (impl : Out) 
   if delivered impl.err then
     if wfRange && fitsOps.contains op && !fits c impl.d then
       out := out ++ [s!"{id} PROPFAIL C07 result does not fit the context"]
+    -- Exp, Ln, Log10: on finite results Inexact implies Rounded, Overflow implies Inexact (C02's closing
+    -- implications; for these functions they are theorems of the tape model: C02T_exp_inexact_rounded)
+    if (op == "exp" || op == "ln" || op == "log10") then
+      if impl.fl.inexact && !impl.fl.rounded && impl.d.form == .finite then
+        out := out ++ [s!"{id} PROPFAIL C02 inexact without rounded on a finite result of {op}"]
+      if impl.fl.overflow && !impl.fl.inexact then
+        out := out ++ [s!"{id} PROPFAIL C02 overflow without inexact ({op})"]
     if op == "quoint" && impl.d.form == .finite && impl.d.exp != 0 then
       out := out ++ [s!"{id} PROPFAIL C07 QuoInteger exponent not 0"]
     match (if wfRange then exactOf op c x y else none) with
@@ -668,6 +675,9 @@ def handleAlias (id : String) (t : List String) : Option (List String × Nat × 
         let dlv (o : Out) : Bool := o.err == .none || (o.err == .trap && (o.fl &&& c.traps).any)
         let same (u v : Out) : Bool := u.err == v.err && (!(dlv u) || (u.fl == v.fl && u.d == v.d && u.aux == v.aux))
         -- the store-level program of the operation, run under the same aliasing pattern
+        -- "~heap" patterns: the same aliasing pattern, operands with heap-backed coefficients
+        let heapPat := name.endsWith "~heap"
+        let name := if heapPat then (name.dropEnd 5).toString else name
         let cells : Option (Nat × Nat × Nat × Dec) := match name with
           | "fresh" => some (0, 1, 2, {})
           | "fresh-nan" => some (0, 1, 2, { form := .nan, neg := true })
@@ -688,7 +698,7 @@ def handleAlias (id : String) (t : List String) : Option (List String × Nat × 
         | none => pure ()
         let ol := ctxOracles id op c x y iarg o fl d.coeffNeg
         if !ol.isEmpty then res := merge res (ol.map (fun l => l ++ s!" [pattern {name}]"), 0, ol.length)
-        if name == "fresh" then
+        if name == "fresh" && !heapPat then
           base := some o
           match runCtxOp op c x y iarg with
           | some m => if !(same m o) then res := merge res ([s!"{id} MISMATCH alias model= {showOut m}"], 1, 0)
@@ -697,10 +707,12 @@ def handleAlias (id : String) (t : List String) : Option (List String × Nat × 
           match base with
           | some b =>
             if !(same b o) then
-              if name == "fresh-nan" || name == "fresh-big" then
+              if name == "fresh" then
+                res := merge res (propfail id "C06" s!"outcome depends on how the operands' coefficients are stored (heap-backed after an earlier large value)")
+              else if name == "fresh-nan" || name == "fresh-big" then
                 res := merge res (propfail id "C06" s!"outcome depends on the previous contents of the destination ({name})")
               else
-                res := merge res (propfail id "C05" s!"outcome under aliasing pattern {name} differs from the non-aliased call")
+                res := merge res (propfail id "C05" s!"outcome under aliasing pattern {name}{if heapPat then " (heap-backed operands)" else ""} differs from the non-aliased call")
           | none => pure ()
       | ["imm", v] => if v != "ok" then res := merge res (propfail id "C06" s!"an input was modified: {v}")
       | ["snap", v] => if v != "ok" then res := merge res (propfail id "C06" s!"shared package state changed: {v}")
